@@ -7,7 +7,7 @@ vectors (integer combinations are a special case).  All theorems: every network,
 graph: the algorithms are modelled once over the slot structure `Topo`), every state, every draw / count vector,
 every time step, any number of steps.
 -/
-import Strengths.Proofs.EulerConserve
+import Strengths.Proofs.GraphConserve
 import Strengths.Proofs.Grid
 import Strengths.Model.CodeSnapshot
 import Strengths.Gen.Stoch
@@ -89,17 +89,15 @@ theorem diffusion_total_zero {e : EngIn} (P : Pairing e) (x : State) (s : Nat) :
   diffusion_flux_sum_zero P x s
 
 /-
-FULL STATEMENT: `euler_conserves` for `gridTopo g …` (all w,h,d ≥ 1, all 8 boundary settings) and for
-`graphTopo …` (every edge list over the nodes), unconditionally.
-PROVED: `euler_conserves_partial` for every topology that has a `Pairing` (each half-edge has a reverse half-edge
-with the in/out constants swapped); `euler_conserves_grid`: UNCONDITIONAL for every valid grid (all sizes, all 8
-boundary settings) — the pairing is the opposed direction, by the neighbour involution `nbr_involutive`
-(Proofs/Grid.lean, from the generated tables and wrap lines) and `oppOf (oppOf n) = n` (generated table).
-MISSING: the instance for `graphTopo` (pairing the two half-edges that `SetNeighbors` pushes for one edge needs an
-index bijection on `graphSlots`); the kd symmetry it needs is `graph_kd_symmetric` below.
-The correspondence + oracle cover both space types on the real engine.
+`euler_conserves` is proved UNCONDITIONALLY for both space types the engine has:
+`euler_conserves_grid` (every valid grid: all sizes, all 8 boundary settings; the half-edges are paired by the
+opposed direction — `nbr_involutive` of Proofs/Grid.lean from the generated tables and wrap lines, and
+`oppOf (oppOf n) = n` from the generated table) and `euler_conserves_graph` (every edge list over the nodes,
+self-loops and parallel edges included, every volume / surface / distance: induction over the edge list, each edge
+contributing a flux and its opposite).  `euler_conserves_paired` is the general form for any topology with a
+half-edge pairing.
 -/
-theorem euler_conserves_partial {e : EngIn} {c : Nat → Rat} (hc : Cons e.net c) (hf : Free e c) (P : Pairing e)
+theorem euler_conserves_paired {e : EngIn} {c : Nat → Rat} (hc : Cons e.net c) (hf : Free e c) (P : Pairing e)
     (dt : Rat) (x : State) : total e c (eulerStep e dt x) = total e c x :=
   euler_conserves hc hf P dt x
 
@@ -135,6 +133,39 @@ theorem euler_conserves_grid (g : GridShape) (hv : g.valid = true) (net : Net) (
     (grid_pairing g net env h chem (fun i n j hi hn hj => by
       obtain ⟨h1, h2⟩ := nbr_involutive hv hi hn hj
       exact ⟨h2, h1⟩)) dt x
+
+/-- `euler_conserves` on every graph space: every edge list over the nodes (parallel edges, self-loops), all volumes,
+surfaces, distances, environments, chemostat maps -/
+theorem euler_conserves_graph (nN : Nat) (edges : List GEdge) (hv : ∀ ed ∈ edges, ed.i < nN ∧ ed.j < nN)
+    (net : Net) (env : Nat → Nat) (vol edge : Nat → Rat) (chem : Nat → Nat → Bool) {c : Nat → Rat}
+    (hc : Cons net c)
+    (hf : Free { net := net, topo := graphTopo nN edges net env vol edge, env := env, chem := chem, vol := vol } c)
+    (dt : Rat) (x : State) :
+    total { net := net, topo := graphTopo nN edges net env vol edge, env := env, chem := chem, vol := vol } c
+      (eulerStep { net := net, topo := graphTopo nN edges net env vol edge, env := env, chem := chem, vol := vol } dt x) =
+    total { net := net, topo := graphTopo nN edges net env vol edge, env := env, chem := chem, vol := vol } c x :=
+  euler_conserves_of_balanced hc hf dt x (graph_diffusionBalanced nN edges hv net env vol edge chem vol x)
+
+/-- both space types are diffusion balanced in every state, so Euler runs of any length conserve (see `euler_run_conserves`) -/
+theorem spaces_balanced :
+    (∀ (g : GridShape), g.valid = true → ∀ (net : Net) (env : Nat → Nat) (h : Rat) (chem : Nat → Nat → Bool) (x : State),
+      DiffusionBalanced { net := net, topo := gridTopo g net env h, env := env, chem := chem, vol := fun _ => h * h * h } x) ∧
+    (∀ (nN : Nat) (edges : List GEdge), (∀ ed ∈ edges, ed.i < nN ∧ ed.j < nN) → ∀ (net : Net) (env : Nat → Nat)
+      (vol edge : Nat → Rat) (chem : Nat → Nat → Bool) (x : State),
+      DiffusionBalanced { net := net, topo := graphTopo nN edges net env vol edge, env := env, chem := chem, vol := vol } x) := by
+  constructor
+  · intro g hv net env h chem x
+    exact diffusionBalanced_of_pairing (grid_pairing g net env h chem (fun i n j hi hn hj => by
+      obtain ⟨h1, h2⟩ := nbr_involutive hv hi hn hj
+      exact ⟨h2, h1⟩)) x
+  · intro nN edges hv net env vol edge chem x
+    exact graph_diffusionBalanced nN edges hv net env vol edge chem vol x
+
+/-- the graph satisfies the topology side condition of the stochastic conservation theorems -/
+theorem graph_topo_ok' (nN : Nat) (edges : List GEdge) (hv : ∀ ed ∈ edges, ed.i < nN ∧ ed.j < nN)
+    (net : Net) (env : Nat → Nat) (vol edge : Nat → Rat) (chem : Nat → Nat → Bool) (vol' : Nat → Rat) :
+    TopoOK { net := net, topo := graphTopo nN edges net env vol edge, env := env, chem := chem, vol := vol' } :=
+  graph_topo_ok nN edges hv net env vol edge chem vol'
 
 /-- the grid satisfies the topology side condition of the stochastic conservation theorems -/
 theorem grid_topo_ok (g : GridShape) (hv : g.valid = true) (net : Net) (env : Nat → Nat) (h : Rat)
@@ -176,12 +207,13 @@ def eulerRun (e : EngIn) (dt : Rat) : Nat → State → State
   | 0, x => x
   | m + 1, x => eulerRun e dt m (eulerStep e dt x)
 
-theorem euler_run_conserves_partial {e : EngIn} {c : Nat → Rat} (hc : Cons e.net c) (hf : Free e c) (P : Pairing e)
+theorem euler_run_conserves {e : EngIn} {c : Nat → Rat} (hc : Cons e.net c) (hf : Free e c)
+    (hbal : ∀ x, DiffusionBalanced e x)
     (dt : Rat) : ∀ (m : Nat) (x : State), total e c (eulerRun e dt m x) = total e c x := by
   intro m
   induction m with
   | zero => intro x; rfl
-  | succ m ih => intro x; simp only [eulerRun]; rw [ih, euler_conserves hc hf P dt x]
+  | succ m ih => intro x; simp only [eulerRun]; rw [ih, euler_conserves_of_balanced hc hf dt x (hbal x)]
 
 /-- iterate Gillespie steps over a stream of draws, stopping when `a0 = 0` -/
 def gillespieRun (e : EngIn) : List (Rat × Rat) → State → State
